@@ -34,6 +34,8 @@ type ClientPlan struct {
 	CloseRst          bool      `json:"close_rst,omitempty"`
 	Chunks            []int     `json:"chunks,omitempty"` // fixed segmentation (C08); empty = scheduler decides
 	Witness           bool      `json:"witness,omitempty"`
+	Phase             int       `json:"phase,omitempty"`   // profile-defined grouping (C18: whitelist phase the probe belongs to)
+	Note              string    `json:"note,omitempty"`
 	Hostile           bool      `json:"hostile,omitempty"` // sends arbitrary bytes: its replies are not position-checked
 }
 
